@@ -402,3 +402,283 @@ func VfH_C01_nesting() {
 	vfCover("nested", depth > 0)
 	vfReach("end")
 }
+
+// ---- C18: the cut law for ONE lookup applied to the whole buffer (real applyString driver) ----
+//
+// Same law one level up: the lookup runs over the whole buffer through the real applyString /
+// applyForward / applyBackward driver (accelerator digests, cursor movement, out-buffer for GSUB), and over
+// the two pieces on either side of a cluster boundary that the whole-buffer run left unflagged; the
+// concatenation of the pieces' results must equal the whole result.
+
+func vfStringBuffer(glyphs []vfStepGlyph, dir Direction) *Buffer {
+	buf := NewBuffer()
+	buf.Props.Direction = dir
+	buf.Info = make([]GlyphInfo, len(glyphs))
+	buf.Pos = make([]GlyphPosition, len(glyphs))
+	for i, g := range glyphs {
+		buf.Info[i] = GlyphInfo{Glyph: g.gid, Cluster: g.cluster, Mask: vfLookupMask, glyphProps: g.props, unicode: g.unicode}
+	}
+	buf.maxOps = 16384
+	return buf
+}
+
+func vfStringRunGPOS(hb *Font, lk font.GPOSLookup, nested []font.GPOSLookup, glyphs []vfStepGlyph, dir Direction) *Buffer {
+	buf := vfStringBuffer(glyphs, dir)
+	var c otApplyContext
+	c.reset(1, hb, buf)
+	c.recurseFunc = func(c *otApplyContext, li uint16) bool {
+		return c.applyRecurseLookup(li, lookupGPOS(nested[li]))
+	}
+	c.setLookupMask(vfLookupMask)
+	var accel otLayoutLookupAccelerator
+	accel.init(lookupGPOS(lk))
+	c.applyString(proxyGPOS, &accel)
+	return buf
+}
+
+func VfH_C18_string_gpos() {
+	maxN := 3
+	if vfThorough() {
+		maxN = 4
+	}
+	which := vfChoice("lookup", vfNbStepLookups+1)
+	n := 2 + vfChoice("n", maxN-1)
+	k := 1 + vfChoice("cut", n-1)
+	flag := uint16(0)
+	if vfBool("ignoreMarks") {
+		flag = uint16(otIgnoreMarks)
+	}
+	dir := LeftToRight
+	if vfBool("rtl") {
+		dir = RightToLeft
+	}
+	glyphs := vfStepGlyphs(n)
+	vfAssume(glyphs[k-1].cluster != glyphs[k].cluster)
+
+	hb := vfStepFont()
+	lk := vfStepLookup(which, flag)
+	nested := vfNestedLookups()
+	whole := vfStringRunGPOS(hb, lk, nested, glyphs, dir)
+	later := k
+	if glyphs[k-1].cluster > glyphs[k].cluster {
+		later = k - 1
+	}
+	safe := !vfClusterFlagged(whole.Info, later)
+	vfCover("safe-boundary", safe)
+	vfCover("unsafe-boundary", !safe)
+	if !safe {
+		vfReach("end")
+		return
+	}
+	left := vfStringRunGPOS(hb, lk, nested, glyphs[:k], dir)
+	right := vfStringRunGPOS(hb, lk, nested, glyphs[k:], dir)
+	for i := 0; i < k; i++ {
+		vfAssert(vfSamePos(whole.Pos[i], left.Pos[i]), "lookup applied to the piece before a safe boundary positions a glyph differently than on the whole text")
+	}
+	for i := k; i < n; i++ {
+		vfAssert(vfSamePos(whole.Pos[i], right.Pos[i-k]), "lookup applied to the piece after a safe boundary positions a glyph differently than on the whole text")
+	}
+	changed := false
+	for i := range whole.Pos {
+		changed = vfOr(changed, !vfSamePos(whole.Pos[i], GlyphPosition{}))
+	}
+	vfCover("positioned", changed)
+	vfReach("end")
+}
+
+// ---- GSUB ----
+
+func vfSingleSubst(glyph, by uint16) tables.GSUBLookup {
+	w := append([]uint16{2, 8, 1, by}, vfCov(glyph)...)
+	t, _, err := tables.ParseSingleSubs(vfWords(w...))
+	if err != nil {
+		panic("harness: SingleSubs does not parse")
+	}
+	return t
+}
+
+// 1 2 -> 9
+func vfLigature() tables.GSUBLookup {
+	w := []uint16{1, 18, 1, 8, 1, 4, 9, 2, 2}
+	w = append(w, vfCov(1)...)
+	t, _, err := tables.ParseLigatureSubs(vfWords(w...))
+	if err != nil {
+		panic("harness: LigatureSubs does not parse")
+	}
+	return t
+}
+
+// 1 -> 7 8
+func vfMultiple() tables.GSUBLookup {
+	w := []uint16{1, 14, 1, 8, 2, 7, 8}
+	w = append(w, vfCov(1)...)
+	t, _, err := tables.ParseMultipleSubs(vfWords(w...))
+	if err != nil {
+		panic("harness: MultipleSubs does not parse")
+	}
+	return t
+}
+
+func vfChainSubst3(backtrack, input, lookahead []uint16, records [][2]uint16) tables.GSUBLookup {
+	n := 1 + 1 + len(backtrack) + 1 + len(input) + 1 + len(lookahead) + 1 + 2*len(records)
+	off := uint16(2 * n)
+	w := []uint16{3, uint16(len(backtrack))}
+	var covs []uint16
+	add := func(seq []uint16) {
+		for _, g := range seq {
+			w = append(w, off)
+			covs = append(covs, vfCov(g)...)
+			off += 6
+		}
+	}
+	add(backtrack)
+	w = append(w, uint16(len(input)))
+	add(input)
+	w = append(w, uint16(len(lookahead)))
+	add(lookahead)
+	w = append(w, uint16(len(records)))
+	for _, r := range records {
+		w = append(w, r[0], r[1])
+	}
+	w = append(w, covs...)
+	t, _, err := tables.ParseChainedContextualSubs(vfWords(w...))
+	if err != nil {
+		panic("harness: ChainedContextualSubs does not parse")
+	}
+	return t
+}
+
+// reverse chaining single substitution of glyph 1 by 9 in the given context
+func vfReverseChain(backtrack, lookahead []uint16) tables.GSUBLookup {
+	n := 2 + 1 + len(backtrack) + 1 + len(lookahead) + 1 + 1
+	off := uint16(2 * n)
+	w := []uint16{1, off}
+	covs := vfCov(1)
+	off += 6
+	w = append(w, uint16(len(backtrack)))
+	for _, g := range backtrack {
+		w = append(w, off)
+		covs = append(covs, vfCov(g)...)
+		off += 6
+	}
+	w = append(w, uint16(len(lookahead)))
+	for _, g := range lookahead {
+		w = append(w, off)
+		covs = append(covs, vfCov(g)...)
+		off += 6
+	}
+	w = append(w, 1, 9)
+	w = append(w, covs...)
+	t, _, err := tables.ParseReverseChainSingleSubs(vfWords(w...))
+	if err != nil {
+		panic("harness: ReverseChainSingleSubs does not parse")
+	}
+	return t
+}
+
+const vfNbGsubLookups = 6
+
+func vfGsubLookup(which int, flag uint16) font.GSUBLookup {
+	var subs []tables.GSUBLookup
+	switch which {
+	case 0:
+		subs = []tables.GSUBLookup{vfLigature()}
+	case 1:
+		subs = []tables.GSUBLookup{vfMultiple()}
+	case 2:
+		// "ignore sub 1' 2; sub 1' by 9"
+		subs = []tables.GSUBLookup{
+			vfChainSubst3(nil, []uint16{1}, []uint16{2}, nil),
+			vfChainSubst3(nil, []uint16{1}, nil, [][2]uint16{{0, 0}}),
+		}
+	case 3:
+		// "ignore sub 2 1'; sub 1' by 9"
+		subs = []tables.GSUBLookup{
+			vfChainSubst3([]uint16{2}, []uint16{1}, nil, nil),
+			vfChainSubst3(nil, []uint16{1}, nil, [][2]uint16{{0, 0}}),
+		}
+	case 4:
+		subs = []tables.GSUBLookup{vfReverseChain(nil, []uint16{2})}
+	case 5:
+		subs = []tables.GSUBLookup{vfReverseChain([]uint16{2}, nil)}
+	}
+	return font.GSUBLookup{LookupOptions: font.LookupOptions{Flag: flag}, Subtables: subs}
+}
+
+func vfStringRunGSUB(hb *Font, lk font.GSUBLookup, nested []font.GSUBLookup, glyphs []vfStepGlyph) *Buffer {
+	buf := vfStringBuffer(glyphs, LeftToRight)
+	var c otApplyContext
+	c.reset(0, hb, buf)
+	c.recurseFunc = func(c *otApplyContext, li uint16) bool {
+		return c.applyRecurseLookup(li, lookupGSUB(nested[li]))
+	}
+	c.setLookupMask(vfLookupMask)
+	var accel otLayoutLookupAccelerator
+	accel.init(lookupGSUB(lk))
+	c.applyString(proxyGSUB, &accel)
+	return buf
+}
+
+func VfH_C18_string_gsub() {
+	maxN := 3
+	if vfThorough() {
+		maxN = 4
+	}
+	which := vfChoice("lookup", vfNbGsubLookups)
+	n := 2 + vfChoice("n", maxN-1)
+	k := 1 + vfChoice("cut", n-1)
+	flag := uint16(0)
+	if vfBool("ignoreMarks") {
+		flag = uint16(otIgnoreMarks)
+	}
+	glyphs := vfStepGlyphs(n)
+	vfAssume(glyphs[0].cluster <= glyphs[n-1].cluster) // ascending clusters only (substitutions merge clusters towards the smaller value)
+	vfAssume(glyphs[k-1].cluster != glyphs[k].cluster)
+	cut := glyphs[k].cluster
+
+	hb := vfStepFont()
+	lk := vfGsubLookup(which, flag)
+	nested := []font.GSUBLookup{{Subtables: []tables.GSUBLookup{vfSingleSubst(1, 9)}}}
+	whole := vfStringRunGSUB(hb, lk, nested, glyphs)
+
+	// the boundary survives when some output glyph still starts the cluster `cut`
+	nLeft, survives, flagged := 0, false, false
+	for _, g := range whole.Info {
+		if g.Cluster < cut {
+			nLeft++
+		}
+		if g.Cluster == cut {
+			survives = true
+			if g.Mask&GlyphUnsafeToBreak != 0 {
+				flagged = true
+			}
+		}
+	}
+	vfCover("merged-away", !survives)
+	vfCover("unsafe-boundary", survives && flagged)
+	if !survives || flagged {
+		vfReach("end")
+		return
+	}
+	vfCover("safe-boundary", true)
+	left := vfStringRunGSUB(hb, lk, nested, glyphs[:k])
+	right := vfStringRunGSUB(hb, lk, nested, glyphs[k:])
+	vfAssert(len(left.Info) == nLeft && len(left.Info)+len(right.Info) == len(whole.Info), "substituting the pieces around a safe boundary yields a different number of glyphs than substituting the whole text")
+	for i := range whole.Info {
+		var p GlyphInfo
+		if i < len(left.Info) {
+			p = left.Info[i]
+		} else {
+			p = right.Info[i-len(left.Info)]
+		}
+		vfAssert(p.Glyph == whole.Info[i].Glyph && p.Cluster == whole.Info[i].Cluster, "substituting the pieces around a safe boundary yields different glyphs than substituting the whole text")
+	}
+	changed := false
+	for i := range whole.Info {
+		if i >= n || whole.Info[i].Glyph != glyphs[i].gid {
+			changed = true
+		}
+	}
+	vfCover("substituted", changed || len(whole.Info) != n)
+	vfReach("end")
+}
